@@ -159,7 +159,7 @@ func g04CallOrder(f *File, fd *ast.FuncDecl, keep map[string]bool) []string {
 			return true
 		}
 		if se, ok := ce.Fun.(*ast.SelectorExpr); ok {
-			if id, ok := se.X.(*ast.Ident); ok && id.Name == "p" && keep[se.Sel.Name] {
+			if id, ok := se.X.(*ast.Ident); ok && id.Name == g04RecvName(fd) && keep[se.Sel.Name] {
 				out = append(out, se.Sel.Name)
 			}
 		}
@@ -168,16 +168,24 @@ func g04CallOrder(f *File, fd *ast.FuncDecl, keep map[string]bool) []string {
 	return out
 }
 
+func g04RecvName(fd *ast.FuncDecl) string {
+	if fd.Recv != nil && len(fd.Recv.List) == 1 && len(fd.Recv.List[0].Names) == 1 {
+		return fd.Recv.List[0].Names[0].Name
+	}
+	return ""
+}
+
 // errorReturnShape checks `if err := p.modifyRequest(req); err != nil { ...; return p.writeErrorResponse(req, err) }`
 // (conn) or `{ ...; p.writeErrorResponse(rw, req, err); return }` (handler).
 func g04ModifyRequestAborts(f *File, fd *ast.FuncDecl) bool {
+	al := newAlpha(fd, "p", "req", "err", "rw", "ctx")
 	found := false
 	ast.Inspect(fd.Body, func(x ast.Node) bool {
 		is, ok := x.(*ast.IfStmt)
 		if !ok || is.Init == nil {
 			return true
 		}
-		if f.Src(is.Init) != "err := p.modifyRequest(req)" || f.Src(is.Cond) != "err != nil" {
+		if !al.Eq("err := p.modifyRequest(req)", f.Src(is.Init)) || !al.Eq("err != nil", f.Src(is.Cond)) {
 			return true
 		}
 		n := len(is.Body.List)
@@ -185,10 +193,10 @@ func g04ModifyRequestAborts(f *File, fd *ast.FuncDecl) bool {
 			return true
 		}
 		last := f.Src(is.Body.List[n-1])
-		if last == "return p.writeErrorResponse(req, err)" {
+		if al.Eq("return p.writeErrorResponse(req, err)", last) {
 			found = true
 		}
-		if last == "return" && n >= 2 && f.Src(is.Body.List[n-2]) == "p.writeErrorResponse(rw, req, err)" {
+		if last == "return" && n >= 2 && al.Eq("p.writeErrorResponse(rw, req, err)", f.Src(is.Body.List[n-2])) {
 			found = true
 		}
 		return true
@@ -199,6 +207,7 @@ func g04ModifyRequestAborts(f *File, fd *ast.FuncDecl) bool {
 // writeErrorShape: does writeErrorResponse run a locally generated response through
 // p.modifyErrorResponse (challenge kept) or through p.modifyResponse (challenge stripped)?
 func g04WriteErrorShape(f *File, fd *ast.FuncDecl) (keeps bool, err error) {
+	al := newAlpha(fd, "p", "rw", "req", "err", "res", "modify")
 	calls := f.CallsIn(fd.Body)
 	var stmts []string
 	for _, s := range fd.Body.List {
@@ -211,15 +220,15 @@ func g04WriteErrorShape(f *File, fd *ast.FuncDecl) (keeps bool, err error) {
 			hasMaybe = true
 		}
 	}
-	if !hasMaybe || !g04Has(calls, "p.errorResponse(req, err)") {
+	if !hasMaybe || !al.In(calls, "p.errorResponse(req, err)") {
 		return false, fmt.Errorf("%s writeErrorResponse: maybeConnectErrorResponse/errorResponse calls not found: %q", f.Path, calls)
 	}
 	switch {
-	case g04Has(calls, "p.modifyResponse(res)") && !strings.Contains(joined, "modifyErrorResponse"):
+	case al.In(calls, "p.modifyResponse(res)") && !strings.Contains(joined, "modifyErrorResponse"):
 		return false, nil
-	case strings.Contains(joined, "modify := p.modifyResponse") &&
-		strings.Contains(joined, "if res == nil { res = p.errorResponse(req, err) modify = p.modifyErrorResponse }") &&
-		g04Has(calls, "modify(res)"):
+	case al.Contains(joined, "modify := p.modifyResponse") &&
+		al.Contains(joined, "if res == nil { res = p.errorResponse(req, err) modify = p.modifyErrorResponse }") &&
+		al.In(calls, "modify(res)"):
 		return true, nil
 	}
 	return false, fmt.Errorf("%s writeErrorResponse: not a shape the model knows: %s", f.Path, joined)
@@ -256,8 +265,8 @@ func genG04(repo string, w *Out) error {
 		if gd, ok := x.(*ast.GenDecl); ok && gd.Tok == token.CONST {
 			for _, sp := range gd.Specs {
 				vs := sp.(*ast.ValueSpec)
-				if len(vs.Names) == 1 && vs.Names[0].Name == "prefix" && len(vs.Values) == 1 {
-					prefix, _ = StringLit(vs.Values[0])
+				if len(vs.Names) == 1 && len(vs.Values) == 1 && prefix == "" {
+					prefix, _ = StringLit(vs.Values[0]) // the only constant of the function, whatever its name
 				}
 			}
 		}
@@ -267,11 +276,12 @@ func genG04(repo string, w *Out) error {
 		return fmt.Errorf("parseBasicAuth: const prefix not found")
 	}
 	w.DefStr("basic_prefix", prefix)
-	if err := g04Need("parseBasicAuth conditions", g04IfConds(ba, pba.Body),
+	apba := newAlpha(pba, "auth", "prefix", "c", "err", "cs", "username", "password", "ok")
+	if err := apba.Need("parseBasicAuth conditions", g04IfConds(ba, pba.Body),
 		"len(auth) < len(prefix) || !strings.EqualFold(auth[:len(prefix)], prefix)", "err != nil", "!ok"); err != nil {
 		return err
 	}
-	if err := g04Need("parseBasicAuth calls", ba.CallsIn(pba.Body),
+	if err := apba.Need("parseBasicAuth calls", ba.CallsIn(pba.Body),
 		"base64.StdEncoding.DecodeString(auth[len(prefix):])", `strings.Cut(cs, ":")`); err != nil {
 		return err
 	}
@@ -279,17 +289,18 @@ func genG04(repo string, w *Out) error {
 	if err != nil {
 		return err
 	}
-	if err := g04Need("BasicAuth.BasicAuth calls", ba.CallsIn(bam.Body), "r.Header.Get(ba.header)", "parseBasicAuth(auth)"); err != nil {
+	abam := newAlpha(bam, "ba", "r", "auth", "username", "password", "ok")
+	if err := abam.Need("BasicAuth.BasicAuth calls", ba.CallsIn(bam.Body), "r.Header.Get(ba.header)", "parseBasicAuth(auth)"); err != nil {
 		return err
 	}
-	if err := g04Need("BasicAuth.BasicAuth conditions", g04IfConds(ba, bam.Body), `auth == ""`); err != nil {
+	if err := abam.Need("BasicAuth.BasicAuth conditions", g04IfConds(ba, bam.Body), `auth == ""`); err != nil {
 		return err
 	}
 	ar, err := ba.Func("BasicAuth.AuthenticatedRequest")
 	if err != nil {
 		return err
 	}
-	if err := g04Need("AuthenticatedRequest conditions", g04IfConds(ba, ar.Body),
+	if err := newAlpha(ar, "ba", "r", "expectedUser", "expectedPass", "user", "pass", "ok").Need("AuthenticatedRequest conditions", g04IfConds(ba, ar.Body),
 		"!ok || subtle.ConstantTimeCompare([]byte(user), []byte(expectedUser)) != 1 || subtle.ConstantTimeCompare([]byte(pass), []byte(expectedPass)) != 1"); err != nil {
 		return err
 	}
@@ -303,23 +314,24 @@ func genG04(repo string, w *Out) error {
 	if err != nil {
 		return err
 	}
+	atf := newAlpha(tfm, "t", "timeToMatch", "localTime")
 	conds := g04IfConds(tf, tfm.Body)
-	if len(conds) != 2 || conds[0] != "localTime.Weekday() != t.Weekday" {
+	if len(conds) != 2 || !atf.Eq("localTime.Weekday() != t.Weekday", conds[0]) {
 		return fmt.Errorf("TimeFrameEntry.Match: conditions %q", conds)
 	}
 	var startIncl, endExcl bool
 	switch {
-	case strings.HasPrefix(conds[1], "localTime.Hour() >= t.HourStart && "):
+	case atf.HasPrefix(conds[1], "localTime.Hour() >= t.HourStart && "):
 		startIncl = true
-	case strings.HasPrefix(conds[1], "localTime.Hour() > t.HourStart && "):
+	case atf.HasPrefix(conds[1], "localTime.Hour() > t.HourStart && "):
 		startIncl = false
 	default:
 		return fmt.Errorf("TimeFrameEntry.Match: hour condition %q", conds[1])
 	}
 	switch {
-	case strings.HasSuffix(conds[1], " && localTime.Hour() < t.HourEnd"):
+	case atf.HasSuffix(conds[1], " && localTime.Hour() < t.HourEnd"):
 		endExcl = true
-	case strings.HasSuffix(conds[1], " && localTime.Hour() <= t.HourEnd"):
+	case atf.HasSuffix(conds[1], " && localTime.Hour() <= t.HourEnd"):
 		endExcl = false
 	default:
 		return fmt.Errorf("TimeFrameEntry.Match: hour condition %q", conds[1])
@@ -334,10 +346,11 @@ func genG04(repo string, w *Out) error {
 	if err != nil {
 		return err
 	}
-	if err := g04Need("TimeFrameAllows", tfa.CallsIn(tfaf.Body), "getCurrentTime()", "rule.Match(currentTime)"); err != nil {
+	atfa := newAlpha(tfaf, "allowRules", "currentTime", "rule")
+	if err := atfa.Need("TimeFrameAllows", tfa.CallsIn(tfaf.Body), "getCurrentTime()", "rule.Match(currentTime)"); err != nil {
 		return err
 	}
-	if s := tfa.Src(tfaf.Body); !strings.Contains(s, "if rule.Match(currentTime) { return true }") || !strings.HasSuffix(s, "return false }") {
+	if s := tfa.Src(tfaf.Body); !atfa.Contains(s, "if rule.Match(currentTime) { return true }") || !strings.HasSuffix(s, "return false }") {
 		return fmt.Errorf("TimeFrameAllows: body %q", s)
 	}
 
@@ -369,8 +382,9 @@ func genG04(repo string, w *Out) error {
 	if err != nil {
 		return err
 	}
-	if s := hp.Src(nhpp.Body); !strings.Contains(s, "lh[i] = strings.ToLower(lh[i])") ||
-		!strings.Contains(s, "hp.localhost = append(hp.localhost, lh...)") ||
+	anh := newAlpha(nhpp, "hp", "lh", "i", "err", "ll", "l")
+	if s := hp.Src(nhpp.Body); !anh.Contains(s, "for i := range lh { lh[i] = strings.ToLower(lh[i]) }") ||
+		!anh.Contains(s, "hp.localhost = append(hp.localhost, lh...)") ||
 		!strings.Contains(s, "hostsfile.LocalhostAliases()") {
 		return fmt.Errorf("NewHTTPProxy: hosts-file alias loading not in the known shape")
 	}
@@ -381,23 +395,24 @@ func genG04(repo string, w *Out) error {
 	if len(il.Body.List) == 0 {
 		return fmt.Errorf("isLocalhost: empty body")
 	}
+	ail := newAlpha(il, "hp", "host", "ip")
 	mapsIDNA := false
-	switch hp.Src(il.Body.List[0]) {
-	case "host = strings.ToLower(host)":
-	case "host = strings.ToLower(asciiHostname(host))":
+	switch first := hp.Src(il.Body.List[0]); {
+	case ail.Eq("host = strings.ToLower(host)", first):
+	case ail.Eq("host = strings.ToLower(asciiHostname(host))", first):
 		mapsIDNA = true
 	default:
 		return fmt.Errorf("isLocalhost: first statement %q is not a shape the model knows", hp.Src(il.Body.List[0]))
 	}
 	w.DefBool("localhost_maps_idna", mapsIDNA)
 	ilc := g04IfConds(hp, il.Body)
-	if len(ilc) != 2 || ilc[0] != "slices.Contains(hp.localhost, host)" {
+	if len(ilc) != 2 || !ail.Eq("slices.Contains(hp.localhost, host)", ilc[0]) {
 		return fmt.Errorf("isLocalhost: conditions %q", ilc)
 	}
 	// a zone cut off between the name lookup and net.ParseIP?
 	stripsZone := false
 	for i, st := range il.Body.List {
-		if hp.Src(st) == `host, _, _ = strings.Cut(host, "%")` {
+		if ail.Eq(`host, _, _ = strings.Cut(host, "%")`, hp.Src(st)) {
 			if i != 2 {
 				return fmt.Errorf("isLocalhost: zone is cut off at statement %d, expected between the name lookup and net.ParseIP", i)
 			}
@@ -408,11 +423,11 @@ func genG04(repo string, w *Out) error {
 	if want := 4 + map[bool]int{false: 0, true: 1}[stripsZone]; len(il.Body.List) != want {
 		return fmt.Errorf("isLocalhost: %d statements, expected %d", len(il.Body.List), want)
 	}
-	switch ilc[1] {
-	case "ip := net.ParseIP(host); ip != nil && ip.IsLoopback()":
+	switch {
+	case ail.Eq("ip := net.ParseIP(host); ip != nil && ip.IsLoopback()", ilc[1]):
 		w.DefBool("localhost_checks_unspecified", false)
-	case "ip := net.ParseIP(host); ip != nil && (ip.IsLoopback() || ip.IsUnspecified())",
-		"ip := net.ParseIP(host); ip != nil && (ip.IsUnspecified() || ip.IsLoopback())":
+	case ail.Eq("ip := net.ParseIP(host); ip != nil && (ip.IsLoopback() || ip.IsUnspecified())", ilc[1]),
+		ail.Eq("ip := net.ParseIP(host); ip != nil && (ip.IsUnspecified() || ip.IsLoopback())", ilc[1]):
 		w.DefBool("localhost_checks_unspecified", true)
 	default:
 		return fmt.Errorf("isLocalhost: IP condition %q is not a shape the model knows", ilc[1])
@@ -422,7 +437,7 @@ func genG04(repo string, w *Out) error {
 		if err != nil {
 			return err
 		}
-		if s := hp.Src(ah.Body); s != "{ for i := 0; i < len(host); i++ { if host[i] >= utf8.RuneSelf { if a, err := idna.Lookup.ToASCII(host); err == nil { return a } break } } return host }" {
+		if s := hp.Src(ah.Body); !newAlpha(ah, "host", "i", "a", "err").Eq("{ for i := 0; i < len(host); i++ { if host[i] >= utf8.RuneSelf { if a, err := idna.Lookup.ToASCII(host); err == nil { return a } break } } return host }", s) {
 			return fmt.Errorf("asciiHostname: body is not the shape the model knows: %s", s)
 		}
 	}
@@ -443,27 +458,43 @@ func genG04(repo string, w *Out) error {
 		"hp.denyDomains(hp.config.DenyDomains)": {"denydomains", "hp.config.DenyDomains != nil"},
 		"stack":                                {"stack", ""},
 	}
+	ams := newAlpha(ms, "hp", "topg", "stack", "fg", "trace", "m", "entry", "currentTime", "lf", "p", "info")
+	// bind the group variables first, from their construction
+	if s := hp.Src(ms.Body); !ams.Contains(s, "topg := fifo.NewGroup()") || !ams.Contains(s, "stack, fg := httpspec.NewStack(hp.config.Name)") ||
+		!ams.Contains(s, "return topg.ToImmutable(), trace") {
+		return fmt.Errorf("middlewareStack: group construction not in the known shape")
+	}
 	var order, fgOrder, topRes []string
 	for _, a := range adds {
 		switch {
-		case a.recv == "topg" && a.kind == "AddRequestModifier":
-			k, ok := topKnown[a.arg]
-			if !ok {
-				return fmt.Errorf("middlewareStack: unknown request modifier %q on topg", a.arg)
+		case ams.Eq("topg", a.recv) && a.kind == "AddRequestModifier":
+			found := false
+			for arg, k := range topKnown {
+				if ams.Eq(arg, a.arg) {
+					if !ams.Eq(k.guard, a.guard) {
+						return fmt.Errorf("middlewareStack: modifier %q is guarded by %q, expected %q", a.arg, a.guard, k.guard)
+					}
+					order = append(order, k.name)
+					found = true
+					break
+				}
 			}
-			if k.guard != a.guard {
-				return fmt.Errorf("middlewareStack: modifier %q is guarded by %q, expected %q", a.arg, a.guard, k.guard)
+			if !found {
+				return fmt.Errorf("middlewareStack: unknown request modifier %q on the top group", a.arg)
 			}
-			order = append(order, k.name)
-		case a.recv == "topg" && a.kind == "AddResponseModifier":
-			topRes = append(topRes, a.arg)
-		case a.recv == "fg" && a.kind == "AddRequestModifier":
-			switch a.arg {
-			case "m":
+		case ams.Eq("topg", a.recv) && a.kind == "AddResponseModifier":
+			if ams.Eq("stack", a.arg) {
+				topRes = append(topRes, "stack")
+			} else {
+				topRes = append(topRes, a.arg)
+			}
+		case ams.Eq("fg", a.recv) && a.kind == "AddRequestModifier":
+			switch {
+			case ams.Eq("m", a.arg):
 				fgOrder = append(fgOrder, "user")
-			case "martian.RequestModifierFunc(hp.setBasicAuth)":
+			case ams.Eq("martian.RequestModifierFunc(hp.setBasicAuth)", a.arg):
 				fgOrder = append(fgOrder, "setBasicAuth")
-			case "martian.RequestModifierFunc(setEmptyUserAgent)":
+			case ams.Eq("martian.RequestModifierFunc(setEmptyUserAgent)", a.arg):
 				fgOrder = append(fgOrder, "setEmptyUserAgent")
 			default:
 				return fmt.Errorf("middlewareStack: unknown inner request modifier %q", a.arg)
@@ -473,10 +504,6 @@ func genG04(repo string, w *Out) error {
 	w.DefStrList("middleware_order", order)
 	w.DefStrList("top_response_order", topRes)
 	w.DefStrList("inner_request_order", fgOrder)
-	if s := hp.Src(ms.Body); !strings.Contains(s, "stack, fg := httpspec.NewStack(hp.config.Name)") ||
-		!strings.Contains(s, "topg := fifo.NewGroup()") || !strings.Contains(s, "return topg.ToImmutable(), trace") {
-		return fmt.Errorf("middlewareStack: group construction not in the known shape")
-	}
 	if strings.Contains(hp.Src(ms.Body), "SetAggregateErrors") {
 		return fmt.Errorf("middlewareStack: error aggregation is switched on (the model aborts on the first error)")
 	}
@@ -484,8 +511,9 @@ func genG04(repo string, w *Out) error {
 	if err != nil {
 		return err
 	}
-	if s := hp.Src(cp.Body); !strings.Contains(s, "mw, trace := hp.middlewareStack() hp.proxy.RequestModifier = mw hp.proxy.ResponseModifier = mw") ||
-		!strings.Contains(s, "hp.proxy.ErrorResponse = hp.errorResponse") {
+	acp := newAlpha(cp, "hp", "mw", "trace")
+	if s := hp.Src(cp.Body); !acp.Contains(s, "mw, trace := hp.middlewareStack() hp.proxy.RequestModifier = mw hp.proxy.ResponseModifier = mw") ||
+		!acp.Contains(s, "hp.proxy.ErrorResponse = hp.errorResponse") {
 		return fmt.Errorf("configureProxy: modifier / error response wiring not in the known shape")
 	}
 
@@ -505,13 +533,14 @@ func genG04(repo string, w *Out) error {
 		if err != nil {
 			return err
 		}
+		am := newAlpha(fd, "hp", "u", "user", "pass", "ba", "req", "r", "h")
 		alts := strings.Split(m.cond, "|h := ")
 		switch {
-		case cond == alts[0]:
+		case am.Eq(alts[0], cond):
 			if m.key == "denydomains" {
 				w.DefBool("deny_matches_ascii_form", false)
 			}
-		case len(alts) == 2 && cond == "h := "+alts[1]:
+		case len(alts) == 2 && am.Eq("h := "+alts[1], cond):
 			w.DefBool("deny_matches_ascii_form", true)
 		default:
 			return fmt.Errorf("%s: guard is %q, expected %q", m.fn, cond, m.cond)
@@ -519,8 +548,9 @@ func genG04(repo string, w *Out) error {
 		w.DefStr("errname_"+m.key, en)
 	}
 	bafd, _ := hp.Func("HTTPProxy.basicAuth")
+	aba := newAlpha(bafd, "hp", "u", "user", "pass", "ba", "req")
 	for _, st := range []string{"user := u.Username()", "pass, _ := u.Password()", "ba := middleware.NewProxyBasicAuth()"} {
-		if s := hp.Src(bafd.Body); !strings.Contains(s, st) {
+		if s := hp.Src(bafd.Body); !aba.Contains(s, st) {
 			return fmt.Errorf("basicAuth: statement %q not found", st)
 		}
 	}
@@ -530,20 +560,21 @@ func genG04(repo string, w *Out) error {
 	if err != nil {
 		return err
 	}
+	asb := newAlpha(sba, "hp", "req", "u", "p", "ok")
 	sbc := g04IfConds(hp, sba.Body)
-	if len(sbc) != 2 || sbc[1] != "u := hp.creds.MatchURL(req.URL); u != nil" {
+	if len(sbc) != 2 || !asb.Eq("u := hp.creds.MatchURL(req.URL); u != nil", sbc[1]) {
 		return fmt.Errorf("setBasicAuth: conditions %q", sbc)
 	}
-	switch sbc[0] {
-	case `req.Header.Get("Authorization") == ""`:
+	switch {
+	case asb.Eq(`req.Header.Get("Authorization") == ""`, sbc[0]):
 		w.DefBool("site_auth_checks_all_lines", false)
-	case `len(req.Header.Values("Authorization")) == 0`, `len(req.Header["Authorization"]) == 0`,
-		`_, ok := req.Header["Authorization"]; !ok`:
+	case asb.Eq(`len(req.Header.Values("Authorization")) == 0`, sbc[0]), asb.Eq(`len(req.Header["Authorization"]) == 0`, sbc[0]),
+		asb.Eq(`_, ok := req.Header["Authorization"]; !ok`, sbc[0]):
 		w.DefBool("site_auth_checks_all_lines", true)
 	default:
 		return fmt.Errorf("setBasicAuth: guard %q is not a shape the model knows", sbc[0])
 	}
-	if err := g04Need("setBasicAuth calls", hp.CallsIn(sba.Body), "req.SetBasicAuth(u.Username(), p)"); err != nil {
+	if err := asb.Need("setBasicAuth calls", hp.CallsIn(sba.Body), "req.SetBasicAuth(u.Username(), p)"); err != nil {
 		return err
 	}
 	// upstreamProxyURL / pacProxy (C06)
@@ -551,7 +582,7 @@ func genG04(repo string, w *Out) error {
 	if err != nil {
 		return err
 	}
-	if err := g04Need("upstreamProxyURL conditions", g04IfConds(hp, upu.Body),
+	if err := newAlpha(upu, "hp", "proxyURL", "u").Need("upstreamProxyURL conditions", g04IfConds(hp, upu.Body),
 		"proxyURL.User == nil", "u := hp.creds.MatchURL(proxyURL); u != nil"); err != nil {
 		return err
 	}
@@ -559,7 +590,7 @@ func genG04(repo string, w *Out) error {
 	if err != nil {
 		return err
 	}
-	if err := g04Need("pacProxy conditions", g04IfConds(hp, pp.Body), "u := hp.creds.MatchURL(proxyURL); u != nil"); err != nil {
+	if err := newAlpha(pp, "hp", "r", "s", "err", "p", "proxyURL", "u").Need("pacProxy conditions", g04IfConds(hp, pp.Body), "u := hp.creds.MatchURL(proxyURL); u != nil"); err != nil {
 		return err
 	}
 
@@ -610,7 +641,8 @@ func genG04(repo string, w *Out) error {
 		if err != nil {
 			return err
 		}
-		if c := g04IfConds(he, fd.Body); len(c) != 1 || c[0] != h.match {
+		ah := newAlpha(fd, "req", "err", "code", "msg", "label", "denyErr", "currentErr")
+		if c := g04IfConds(he, fd.Body); len(c) != 1 || !ah.Eq(h.match, c[0]) {
 			return fmt.Errorf("%s: condition %q, expected %q", h.fn, c, h.match)
 		}
 		if h.class != "error" {
@@ -620,7 +652,7 @@ func genG04(repo string, w *Out) error {
 		}
 		code := ""
 		ast.Inspect(fd.Body, func(x ast.Node) bool {
-			if as, ok := x.(*ast.AssignStmt); ok && len(as.Lhs) == 1 && he.Src(as.Lhs[0]) == "code" {
+			if as, ok := x.(*ast.AssignStmt); ok && len(as.Lhs) == 1 && ah.Eq("code", he.Src(as.Lhs[0])) {
 				code = he.Src(as.Rhs[0])
 			}
 			return true
@@ -675,20 +707,24 @@ func genG04(repo string, w *Out) error {
 		w.DefStr("errtext_"+k.key, errText[k.en])
 	}
 	// challenge
+	aer := newAlpha(er, "hp", "req", "err", "handlers", "code", "msg", "label", "h", "body", "resp")
 	var chCond, chCall string
 	ast.Inspect(er.Body, func(x ast.Node) bool {
-		if is, ok := x.(*ast.IfStmt); ok && strings.HasPrefix(he.Src(is.Cond), "code == ") && len(is.Body.List) == 1 {
+		if is, ok := x.(*ast.IfStmt); ok && aer.HasPrefix(he.Src(is.Cond), "code == http.") && len(is.Body.List) == 1 {
 			chCond, chCall = he.Src(is.Cond), he.Src(is.Body.List[0])
 		}
 		return true
 	})
-	cc, ok := g04StatusCodes[strings.TrimPrefix(chCond, "code == ")]
+	if i := strings.Index(chCond, "== "); i >= 0 {
+		chCond = chCond[i+3:]
+	}
+	cc, ok := g04StatusCodes[chCond]
 	if !ok {
 		return fmt.Errorf("errorResponse: challenge condition %q", chCond)
 	}
 	w.DefN("code_challenge", cc)
 	const chWant = `resp.Header.Set("Proxy-Authenticate", fmt.Sprintf("Basic realm=%q", hp.config.Name))`
-	if chCall != chWant {
+	if !aer.Eq(chWant, chCall) {
 		return fmt.Errorf("errorResponse: challenge statement %q, expected %q", chCall, chWant)
 	}
 	w.DefStr("challenge_header", "Proxy-Authenticate")
@@ -699,7 +735,7 @@ func genG04(repo string, w *Out) error {
 	}
 	ehs, _ := StringLit(eh)
 	w.DefStr("error_header", ehs)
-	if err := g04Need("errorResponse calls", he.CallsIn(er.Body),
+	if err := aer.Need("errorResponse calls", he.CallsIn(er.Body),
 		`resp.Header.Set(ErrorHeader, hp.config.Name+" "+err.Error())`,
 		`resp.Header.Set("Content-Type", "text/plain; charset=utf-8")`,
 		"proxyutil.NewResponse(code, &body, req)"); err != nil {
@@ -724,7 +760,7 @@ func genG04(repo string, w *Out) error {
 	if err != nil {
 		return err
 	}
-	if s := hb.Src(rh.Body); s != `{ for _, vs := range header["Connection"] { for _, v := range strings.Split(vs, ",") { k := http.CanonicalHeaderKey(strings.TrimSpace(v)) header.Del(k) } } for _, k := range hopByHopHeaders { header.Del(k) } }` {
+	if s := hb.Src(rh.Body); !newAlpha(rh, "header", "vs", "v", "k").Eq(`{ for _, vs := range header["Connection"] { for _, v := range strings.Split(vs, ",") { k := http.CanonicalHeaderKey(strings.TrimSpace(v)) header.Del(k) } } for _, k := range hopByHopHeaders { header.Del(k) } }`, s) {
 		return fmt.Errorf("removeHopByHopHeaders: body is not the shape the model transcribes: %s", s)
 	}
 	for _, fn := range []string{"hopByHopModifier.ModifyRequest", "hopByHopModifier.ModifyResponse"} {
@@ -732,7 +768,7 @@ func genG04(repo string, w *Out) error {
 		if err != nil {
 			return err
 		}
-		if s := hb.Src(fd.Body); !strings.HasPrefix(s, "{ removeHopByHopHeaders(re") {
+		if s := hb.Src(fd.Body); !strings.HasPrefix(s, "{ removeHopByHopHeaders(") || !strings.Contains(s, ".Header) return nil }") {
 			return fmt.Errorf("%s: body %q", fn, s)
 		}
 	}
@@ -748,12 +784,22 @@ func genG04(repo string, w *Out) error {
 	}
 	stackNames := map[string]string{"hbhm": "hbhm", "header.NewForwardedModifier()": "forwarded",
 		"header.NewBadFramingModifier()": "badframing", "vm": "via", "inner": "inner"}
+	ans := newAlpha(ns, "via", "outer", "inner", "hbhm", "vm")
+	if s := hs.Src(ns.Body); !ans.Contains(s, "outer = fifo.NewGroup()") || !ans.Contains(s, "hbhm := header.NewHopByHopModifier()") ||
+		!ans.Contains(s, "vm := header.NewViaModifier(via)") || !ans.Contains(s, "inner = fifo.NewGroup()") {
+		return fmt.Errorf("httpspec.NewStack: construction not in the known shape")
+	}
 	var sreq, sres []string
 	for _, a := range g04AddCalls(hs, ns.Body) {
-		if a.recv != "outer" {
+		if !ans.Eq("outer", a.recv) {
 			continue
 		}
-		n, ok := stackNames[a.arg]
+		n, ok := "", false
+		for arg, nm := range stackNames {
+			if ans.Eq(arg, a.arg) {
+				n, ok = nm, true
+			}
+		}
 		if !ok {
 			return fmt.Errorf("httpspec.NewStack: unknown modifier %q", a.arg)
 		}
@@ -765,9 +811,6 @@ func genG04(repo string, w *Out) error {
 	}
 	w.DefStrList("stack_request_order", sreq)
 	w.DefStrList("stack_response_order", sres)
-	if s := hs.Src(ns.Body); !strings.Contains(s, "hbhm := header.NewHopByHopModifier()") || !strings.Contains(s, "vm := header.NewViaModifier(via)") {
-		return fmt.Errorf("httpspec.NewStack: construction not in the known shape")
-	}
 
 	// ------------------------------------------------------------ fifo group: first error aborts
 	fg, err := Parse(repo, "internal/martian/fifo/fifo_group.go")
@@ -778,7 +821,7 @@ func genG04(repo string, w *Out) error {
 	if err != nil {
 		return err
 	}
-	if s := fg.Src(gm.Body); s != "{ var merr error for _, reqmod := range g.reqmods { if err := reqmod.ModifyRequest(req); err != nil { if g.aggregateErrors { merr = multierr.Append(merr, err) continue } return err } } return merr }" {
+	if s := fg.Src(gm.Body); !newAlpha(gm, "g", "req", "merr", "reqmod", "err").Eq("{ var merr error for _, reqmod := range g.reqmods { if err := reqmod.ModifyRequest(req); err != nil { if g.aggregateErrors { merr = multierr.Append(merr, err) continue } return err } } return merr }", s) {
 		return fmt.Errorf("fifo group.ModifyRequest: body is not the shape the model transcribes: %s", s)
 	}
 
@@ -838,7 +881,7 @@ func genG04(repo string, w *Out) error {
 		if err != nil {
 			return err
 		}
-		if s := px.Src(mer.Body); s != `{ challenge := res.Header.Values("Proxy-Authenticate") err := p.modifyResponse(res) if len(challenge) > 0 { res.Header["Proxy-Authenticate"] = challenge } return err }` {
+		if s := px.Src(mer.Body); !newAlpha(mer, "p", "res", "challenge", "err").Eq(`{ challenge := res.Header.Values("Proxy-Authenticate") err := p.modifyResponse(res) if len(challenge) > 0 { res.Header["Proxy-Authenticate"] = challenge } return err }`, s) {
 			return fmt.Errorf("Proxy.modifyErrorResponse: body is not the shape the model transcribes: %s", s)
 		}
 	}
